@@ -107,6 +107,9 @@ func trueQuadTree(t tms20.TileMatrixSet) bool {
 		}
 		if i > 0 {
 			p := t.TileMatrices[ids[i-1]]
+			if math.IsNaN(p.CellSize) || math.IsInf(p.CellSize, 0) || math.IsNaN(tm.CellSize) || math.IsInf(tm.CellSize, 0) || tm.CellSize == 0 {
+				return false // no ratio of two cell sizes
+			}
 			ratio := new(big.Rat).Quo(new(big.Rat).SetFloat64(p.CellSize), new(big.Rat).SetFloat64(tm.CellSize))
 			if id != ids[i-1]+1 || *tm.PointOfOrigin != *p.PointOfOrigin || tm.CornerOfOrigin != p.CornerOfOrigin || tm.TileHeight != p.TileHeight || tm.MatrixHeight != 2*p.MatrixHeight ||
 				ratio.Cmp(big.NewRat(199, 100)) < 0 || ratio.Cmp(big.NewRat(201, 100)) > 0 {
@@ -120,7 +123,7 @@ func trueQuadTree(t tms20.TileMatrixSet) bool {
 func checkC14(e *env) {
 	r := e.res
 	r.Rule = "all 14 built-in tile matrix sets as they are, and for every set accepted by IsQuadTree every tile matrix x every single-field perturbation: matrix width/height +1, -1, x2 (each alone and both), tile width/height x2 (each alone and both), " +
-		"origin x/y +1, corner flipped, cell size replaced by previous/1.989, /1.99, /2.01, /2.011 (tolerance borders), id gap (a middle matrix removed), ids not starting at 0 (the first 1..3 matrices removed, all ids shifted by 1 and by 5), every matrix at once (matrix widths x2 and x4: a first matrix of more than one tile; tiles of 512, 128, 300, 384), id text 'x', '01', '+N', '', a variable-width row added; " +
+		"origin x/y +1, corner flipped, cell size replaced by previous/1.989, /1.99, /2.01, /2.011 (tolerance borders), by NaN, +Inf and 0 (one matrix, and 0 / NaN in every matrix), id gap (a middle matrix removed), ids not starting at 0 (the first 1..3 matrices removed, all ids shifted by 1 and by 5), every matrix at once (matrix widths x2 and x4: a first matrix of more than one tile; tiles of 512, 128, 300, 384), id text 'x', '01', '+N', '', a variable-width row added; " +
 		"IsQuadTree's verdict (accept / which check rejects) against the model and against the declarative true-quadtree predicate; the binary is run on every built-in set to see an error message, never a stack trace. Enumerated completely (exhaustive)."
 	accepted := map[string]bool{}
 	type pixelSet struct {
@@ -139,7 +142,15 @@ func checkC14(e *env) {
 			impl := isQuadImpl(tt)
 			r.count("isquad", name+" "+what+" | "+op, what != "as-is")
 			r.Dist["isquad:"+strings.Fields(impl)[0]]++
-			e.pending = append(e.pending, pendingOp{"isquad", op, impl})
+			finite := true
+			for _, tm := range tt.TileMatrices {
+				if math.IsNaN(tm.CellSize) || math.IsInf(tm.CellSize, 0) {
+					finite = false // the model works on exact rationals: NaN and Inf only go through the oracles
+				}
+			}
+			if finite {
+				e.pending = append(e.pending, pendingOp{"isquad", op, impl})
+			}
 			if strings.HasPrefix(impl, "panic") {
 				r.violation(Violation{Oracle: "validation-never-panics", Op: name + " " + what, Impl: impl, Detail: impl})
 				return
@@ -213,6 +224,11 @@ func checkC14(e *env) {
 					mod(fmt.Sprintf("cellSize=prev/%v", q.ratio), q.reject, func(tm *tms20.TileMatrix) { tm.CellSize = prev / q.ratio })
 				}
 			}
+			if len(ids) > 1 { // a cell size that is no number, infinite or zero has no ratio of 2 with its neighbours
+				mod("cellSize NaN", true, func(tm *tms20.TileMatrix) { tm.CellSize = math.NaN() })
+				mod("cellSize +Inf", true, func(tm *tms20.TileMatrix) { tm.CellSize = math.Inf(1) })
+				mod("cellSize 0", true, func(tm *tms20.TileMatrix) { tm.CellSize = 0 })
+			}
 			mod("id text x", true, func(tm *tms20.TileMatrix) { tm.ID = "x" })
 			mod("id text empty", true, func(tm *tms20.TileMatrix) { tm.ID = "" })
 			mod("id text 0N", false, func(tm *tms20.TileMatrix) { tm.ID = "0" + tm.ID })
@@ -259,6 +275,10 @@ func checkC14(e *env) {
 			if isQuadImpl(c) == "ok" {
 				pixelSets = append(pixelSets, pixelSet{name + " " + what, c})
 			}
+		}
+		if len(ids) > 1 {
+			whole("all cell sizes 0", true, func(tm *tms20.TileMatrix) { tm.CellSize = 0 })
+			whole("all cell sizes NaN", true, func(tm *tms20.TileMatrix) { tm.CellSize = math.NaN() })
 		}
 		whole("all matrices x2", true, func(tm *tms20.TileMatrix) { tm.MatrixWidth *= 2; tm.MatrixHeight *= 2 })
 		whole("all matrices x4", true, func(tm *tms20.TileMatrix) { tm.MatrixWidth *= 4; tm.MatrixHeight *= 4 })
